@@ -202,6 +202,28 @@ func (w *World) verifyFunc(fn *ssa.Function, fc *FuncContract, safetyTags []stri
 				x.oblige(st, "globalinv", "", label, gi.Tags, g, fn.Pos(), gi.Src)
 			}
 		}
+		// constructors / initialisers: the object invariants of the objects they hand out hold at exit
+		for _, ee := range fc.Establishes {
+			ov, err := env.evalSafe(ee)
+			if err != nil {
+				x.reject("contract of %s: establishes %s: %v", fc.Key, exprString(ee), err)
+			}
+			if ov.T == nil {
+				x.reject("contract of %s: establishes %s: untyped value", fc.Key, exprString(ee))
+			}
+			for i, oi := range w.cs.ObjInvs[namedKey(ov.T)] {
+				oenv := &specEnv{w: w, pkg: oi.Pkg, vars: map[string]Val{oi.Var: ov}, st: st, heap: st.heap, old: x.initHeap}
+				g, err := oenv.evalBool(oi.E)
+				if err != nil {
+					x.reject("objinv of %s: %v", oi.Type, err)
+				}
+				label := oi.Label
+				if label == "" {
+					label = fmt.Sprintf("objinv%d", i)
+				}
+				x.oblige(st, "establish", "", label, oi.Tags, g, fn.Pos(), "established for "+exprString(ee)+": "+oi.Src)
+			}
+		}
 		for i, oi := range objinvs {
 			oenv := &specEnv{w: w, pkg: oi.Pkg, vars: map[string]Val{oi.Var: recvVal}, st: st, heap: st.heap, old: x.initHeap}
 			g, err := oenv.evalBool(oi.E)
